@@ -3,6 +3,7 @@ package all
 
 import (
 	_ "verif/props/c02"
+	_ "verif/props/c13"
 	_ "verif/props/c14"
 	_ "verif/props/c15"
 	_ "verif/props/c16"
